@@ -28,7 +28,9 @@ ObsInit == [ asm  |-> << >>,    \* key -> [len, use, amb]       request bodies u
 Flag(o, c) == [o EXCEPT !.bad = @ \cup {c}]
 FlagIf(o, cond, c) == IF cond THEN Flag(o, c) ELSE o
 
-Alive(s, t) == IF t < s.use + T THEN "yes" ELSE IF t >= s.use + 2 * T THEN "no" ELSE "maybe"
+\* `use': last successful use; `umax': last access of any kind (a rejected continuation may or may
+\* not count as a use -- the statement does not say)
+Alive(s, t) == IF t < s.use + T THEN "yes" ELSE IF t >= s.umax + 2 * T THEN "no" ELSE "maybe"
 
 NoExp == [kind |-> "any", key |-> <<0, 0, 0>>, n |-> 0, m |-> 0, s |-> 0, len |-> 0, cid |-> 0, off |-> 0,
           calls |-> 0, body |-> -1, seen |-> FALSE]
@@ -38,7 +40,7 @@ ObsRxBlock1(o, e, key, rk) ==
   LET size == Size(e.b1s)
       X(kind, len) == [NoExp EXCEPT !.kind = kind, !.key = key, !.n = e.b1n, !.m = e.b1m, !.s = e.b1s, !.len = len]
   IN IF e.b1n = 0
-       THEN LET o1 == [o EXCEPT !.asm = Put(@, key, [len |-> e.plen, use |-> e.t,
+       THEN LET o1 == [o EXCEPT !.asm = Put(@, key, [len |-> e.plen, use |-> e.t, umax |-> e.t,
                                                    amb |-> (e.b1m = 1 /\ e.plen # size)])]
             IN [o1 EXCEPT !.exp = Put(@, rk, IF e.b1m = 1 THEN X("continue", 0) ELSE X("final", e.plen))]
      ELSE IF ~Has(o.asm, key) THEN [o EXCEPT !.exp = Put(@, rk, X("e408", 0))]
@@ -46,14 +48,14 @@ ObsRxBlock1(o, e, key, rk) ==
               al == Alive(a, e.t)
           IN IF al = "no" THEN [o EXCEPT !.exp = Put(@, rk, X("e408", 0))]
              ELSE IF al = "maybe" \/ a.amb
-               THEN [o EXCEPT !.asm[key].amb = TRUE, !.asm[key].use = e.t, !.exp = Put(@, rk, X("any", 0))]
+               THEN [o EXCEPT !.asm[key].amb = TRUE, !.asm[key].umax = e.t, !.exp = Put(@, rk, X("any", 0))]
              ELSE IF e.b1m = 1 /\ e.plen # size
                THEN \* size contradiction (4.00); where it is also a gap, 4.08 is as good
-                    [o EXCEPT !.asm[key].amb = TRUE,
+                    [o EXCEPT !.asm[key].amb = TRUE, !.asm[key].umax = e.t,
                               !.exp = Put(@, rk, X(IF e.b1n * size = a.len THEN "e400" ELSE "e400or408", 0))]
              ELSE IF e.b1n * size # a.len
-               THEN [o EXCEPT !.asm[key].amb = TRUE, !.asm[key].use = e.t, !.exp = Put(@, rk, X("e408", 0))]
-             ELSE LET o1 == [o EXCEPT !.asm[key].len = a.len + e.plen, !.asm[key].use = e.t]
+               THEN [o EXCEPT !.asm[key].amb = TRUE, !.asm[key].umax = e.t, !.exp = Put(@, rk, X("e408", 0))]
+             ELSE LET o1 == [o EXCEPT !.asm[key].len = a.len + e.plen, !.asm[key].use = e.t, !.asm[key].umax = e.t]
                   IN [o1 EXCEPT !.exp = Put(@, rk, IF e.b1m = 1 THEN X("continue", 0) ELSE X("final", a.len + e.plen))]
 
 ObsRxBlock2(o, e, key, rk) ==
@@ -66,12 +68,12 @@ ObsRxBlock2(o, e, key, rk) ==
               off == e.b2n * size
           IN IF al = "no" THEN [o EXCEPT !.exp = Put(@, rk, X("e408"))]
              ELSE IF al = "maybe" \/ rd.amb
-               THEN [o EXCEPT !.rend[key].amb = TRUE, !.rend[key].use = e.t, !.exp = Put(@, rk, X("any"))]
+               THEN [o EXCEPT !.rend[key].amb = TRUE, !.rend[key].umax = e.t, !.exp = Put(@, rk, X("any"))]
              ELSE IF off >= rd.len
                THEN \* beyond the end: 4.00; where the latest rendering never needed a block-wise transfer,
                     \* "no such rendering" (4.08) is as good a reading of the statement
-                    [o EXCEPT !.rend[key].use = e.t, !.exp = Put(@, rk, X(IF rd.chunked THEN "e400b" ELSE "e400or408b"))]
-             ELSE [o EXCEPT !.rend[key].use = e.t,
+                    [o EXCEPT !.rend[key].umax = e.t, !.exp = Put(@, rk, X(IF rd.chunked THEN "e400b" ELSE "e400or408b"))]
+             ELSE [o EXCEPT !.rend[key].use = e.t, !.rend[key].umax = e.t,
                             !.exp = Put(@, rk, [X("slice") EXCEPT !.cid = rd.cid, !.off = off,
                                                                   !.len = Min(size, rd.len - off),
                                                                   !.m = IF off + size < rd.len THEN 1 ELSE 0])]
@@ -103,7 +105,7 @@ ObsRelease(o, e) ==
   ELSE LET rk == o.inv[e.inv]
            x == o.exp[rk]
        IN IF x.kind \in {"first", "firstplain"}
-            THEN [o EXCEPT !.rend = Put(@, x.key, [cid |-> e.inv % 256, len |-> e.plen, use |-> e.t, amb |-> FALSE,
+            THEN [o EXCEPT !.rend = Put(@, x.key, [cid |-> e.inv % 256, len |-> e.plen, use |-> e.t, umax |-> e.t, amb |-> FALSE,
                                                    chunked |-> FALSE]),
                            !.exp[rk].body = e.plen, !.exp[rk].cid = e.inv % 256]
             ELSE o
